@@ -197,6 +197,9 @@ class ArrayUnionMatcher(CombinationMatcher):
         self._partsize = partsize
 
         self._a = array("d", (0 for _ in xrange(self._partsize)))
+        # Which slots of the score array hold a matching document (a score of
+        # 0 or less does not mean "no match")
+        self._present = bytearray(self._partsize)
         self._docnum = self._min_id()
         self._read_part()
 
@@ -216,6 +219,7 @@ class ArrayUnionMatcher(CombinationMatcher):
         m._doccount = self._doccount
         m._partsize = self._partsize
         m._a = array("d", self._a)
+        m._present = bytearray(self._present)
         m._docnum = self._docnum
         m._offset = self._offset
         m._limit = self._limit
@@ -240,15 +244,18 @@ class ArrayUnionMatcher(CombinationMatcher):
         limit = min(self._docnum + self._partsize, self._doccount)
         offset = self._docnum
         a = self._a
+        present = self._present
 
         # Clear the array
         for i in xrange(self._partsize):
             a[i] = 0
+            present[i] = 0
 
         # Add the scores from the submatchers into the array
         for m in self._submatchers:
             while m.is_active() and m.id() < limit:
                 i = m.id() - offset
+                present[i] = 1
                 if scored:
                     a[i] += m.score() * boost
                 else:
@@ -259,13 +266,13 @@ class ArrayUnionMatcher(CombinationMatcher):
         self._limit = limit
 
     def _find_next(self):
-        a = self._a
+        present = self._present
         docnum = self._docnum
         offset = self._offset
         limit = self._limit
 
         while docnum < limit:
-            if a[docnum - offset] > 0:
+            if present[docnum - offset]:
                 break
             docnum += 1
 
@@ -333,9 +340,9 @@ class ArrayUnionMatcher(CombinationMatcher):
         offset = self._offset
         limit = self._limit
 
-        a = self._a
+        present = self._present
         while docnum < doccount:
-            if a[docnum - offset] > 0:
+            if present[docnum - offset]:
                 yield docnum
 
             docnum += 1
